@@ -169,6 +169,57 @@ class SMG_enantiomer_1(LoopInv):
         ]
 
 
+def _inside(d, S):
+    """every non-placeholder atom of descriptor d is a member of the set with membership array S"""
+    return z3.And(*[z3.Or(i >= GM.d_len(d), H.OIntS.is_ONone(GM.d_slot(d, i)), z3.Select(S, H.OIntS.ov(GM.d_slot(d, i)))) for i in range(7)])
+
+
+class SMG_subgraph_0(LoopInv):
+    """for central_atom, atoms_atom_stereo in self._atom_stereo.items():
+           if all(atom is None or atom in atom_set for atom in set((*atoms_atom_stereo.atoms, central_atom))): new_graph.set_atom_stereo(atoms_atom_stereo)"""
+    modifies_dict_dom = ("astereo",)
+    modifies_dict_val = ("astereo",)
+
+    def inv(self, ctx, done):
+        e = ctx.fr.env["new_graph"]
+        S = ctx.fr.env["atom_set"].arr(ctx.interp)
+        v0 = ctx.v_entry
+        ve0 = GM.View(ctx.h_entry, e)
+        ve = GM.View(H.heap_of(ctx.interp).snapshot(), e)
+        x = z3.Int("lx")
+        osome = H.ODescrS.DSome
+        view = lambda vv, xx: z3.If(vv.as_has(xx), osome(vv.as_val(xx)), H.ODescrS.DNone)  # noqa
+        return [
+            ("visited-are-keys", FA([x], z3.Implies(z3.Select(done, x), z3.Select(ctx.C, x)), patterns=[z3.Select(done, x)])),
+            ("visited-descriptors-inside-the-atom-set-copied-others-as-before",
+             FA([x], view(ve, x) == z3.If(z3.And(z3.Select(done, x), v0.as_has(x), _inside(v0.as_val(x), S)), osome(v0.as_val(x)), view(ve0, x)))),
+            ("only-the-subgraph's-atom-stereo-table-is-written", _frame_other_refs(ctx, "astereo", e.fields["_atom_stereo"].ref)),
+        ]
+
+
+class SMG_subgraph_1(LoopInv):
+    """for _bond, bond_stereo in self._bond_stereo.items():
+           if all(atom is None or atom in atom_set for atom in bond_stereo.atoms): new_graph.set_bond_stereo(bond_stereo)"""
+    modifies_dict_dom = ("bstereo",)
+    modifies_dict_val = ("bstereo",)
+
+    def inv(self, ctx, done):
+        e = ctx.fr.env["new_graph"]
+        S = ctx.fr.env["atom_set"].arr(ctx.interp)
+        v0 = ctx.v_entry
+        ve0 = GM.View(ctx.h_entry, e)
+        ve = GM.View(H.heap_of(ctx.interp).snapshot(), e)
+        b = z3.Const("lb", BondS)
+        osome = H.ODescrS.DSome
+        view = lambda vv, bb: z3.If(vv.bs_has(bb), osome(vv.bs_val(bb)), H.ODescrS.DNone)  # noqa
+        return [
+            ("visited-are-keys", FA([b], z3.Implies(z3.Select(done, b), z3.Select(ctx.C, b)), patterns=[z3.Select(done, b)])),
+            ("visited-descriptors-inside-the-atom-set-copied-others-as-before",
+             FA([b], view(ve, b) == z3.If(z3.And(z3.Select(done, b), v0.bs_has(b), _inside(v0.bs_val(b), S)), osome(v0.bs_val(b)), view(ve0, b)))),
+            ("only-the-subgraph's-bond-stereo-table-is-written", _frame_other_refs(ctx, "bstereo", e.fields["_bond_stereo"].ref)),
+        ]
+
+
 def _chg_view(vv, atomic, k, c):
     if atomic:
         return z3.If(z3.And(vv.ac_has(k), vv.ac_slot_has(k, c)), vv.ac_slot(k, c), H.ODescrS.DNone)
@@ -239,6 +290,57 @@ class SCRG_enantiomer_1(_SCRG_enantiomer_changes):
     atomic = False
 
 
+class SCRG_subgraph_1(LoopInv):
+    """for key, change_dict in table.items():          (table = atom change table, then bond change table)
+           kept = ChangeDict((change, stereo) for change, stereo in change_dict.items() if stereo is not None and all(a is None or a in atom_set for a in stereo.atoms))
+           if kept: new_table[key] = kept"""
+    allocates = True
+
+    def setup(self, ctx, iterable):
+        self.t = iterable.d.t if isinstance(iterable, H.DictItems) else iterable.source.t  # D_ACHG or D_BCHG
+        self.modifies_dict_dom = (self.t.name, "chg")
+        self.modifies_dict_val = (self.t.name, "chg")
+
+    def inv(self, ctx, done):
+        e = ctx.fr.env["new_graph"]
+        S = ctx.fr.env["atom_set"].arr(ctx.interp)
+        v0, E = ctx.v_entry, ctx.h_entry
+        N = H.heap_of(ctx.interp).snapshot()
+        vE, vN = GM.View(E, e), GM.View(N, e)
+        at = self.t is H.D_ACHG
+        k = z3.Int("lk") if at else z3.Const("lkb", BondS)
+        k2 = z3.Int("lk2") if at else z3.Const("lkb2", BondS)
+        c = z3.Const("lc", H.ChgS)
+        r_ = z3.Int("lr")
+        tref = e.fields["_atom_stereo_change" if at else "_bond_stereo_change"].ref
+        pick = lambda vv: (vv.ac_has, vv.ac_ref, vv.ac_slot_has, vv.ac_slot) if at else (vv.bc_has, vv.bc_ref, vv.bc_slot_has, vv.bc_slot)  # noqa
+        has0, ref0, sh0, sl0 = pick(v0)
+        hasE, refE, shE, slE = pick(vE)
+        hasN, refN, shN, slN = pick(vN)
+        topE, topN = E.top(), N.top()
+        survive = lambda kk, cc: z3.And(sh0(kk, cc), H.ODescrS.is_DSome(sl0(kk, cc)), _inside(H.ODescrS.dd(sl0(kk, cc)), S))  # noqa
+        some = lambda kk: z3.Or(*[survive(kk, ch) for ch in (H.FORMED, H.FLEETING, H.BROKEN)])  # noqa
+        kept = lambda kk: z3.And(z3.Select(done, kk), has0(kk), some(kk))  # noqa
+        return [
+            ("visited-are-keys", FA([k], z3.Implies(z3.Select(done, k), z3.Select(ctx.C, k)), patterns=[z3.Select(done, k)])),
+            ("only-the-subgraph's-table-is-written", _frame_other_refs(ctx, self.t.name, tref)),
+            ("change-dicts-that-existed-at-loop-entry-untouched",
+             FA([r_], z3.Implies(r_ < topE, z3.And(z3.Select(N.dom["chg"], r_) == z3.Select(E.dom["chg"], r_), z3.Select(N.val["chg"], r_) == z3.Select(E.val["chg"], r_))))),
+            ("keys-of-the-subgraph's-table", FA([k], hasN(k) == z3.Or(hasE(k), kept(k)), patterns=[hasN(k)])),
+            ("kept-entries-are-new-dicts-others-keep-theirs",
+             FA([k], z3.Implies(hasN(k), z3.If(kept(k), z3.And(refN(k) >= topE, refN(k) < topN), refN(k) == refE(k))), patterns=[refN(k)])),
+            ("change-dicts-of-the-subgraph-allocated-during-the-call", FA([k], z3.Implies(hasN(k), z3.And(refN(k) >= E.A0, refN(k) < topN)), patterns=[refN(k)])),
+            ("change-dicts-of-the-subgraph-unshared", FA([k, k2], z3.Implies(z3.And(hasN(k), hasN(k2), k != k2), refN(k) != refN(k2)), patterns=[z3.MultiPattern(refN(k), refN(k2))])),
+            ("kept-entries-have-the-surviving-slots", FA([k, c], z3.Implies(kept(k), shN(k, c) == survive(k, c)), patterns=[shN(k, c)])),
+            ("kept-entries-hold-the-source's-descriptors", FA([k, c], z3.Implies(z3.And(kept(k), survive(k, c)), slN(k, c) == sl0(k, c)), patterns=[slN(k, c)])),
+        ]
+
+    def hints(self, ctx, x):
+        e = ctx.fr.env["new_graph"]
+        vE = GM.View(ctx.h_entry, e)
+        return [ctx.v_entry.ac_ref(x), vE.ac_ref(x)] if self.t is H.D_ACHG else [ctx.v_entry.bc_ref(x), vE.bc_ref(x)]
+
+
 def _role_loop(label):
     class _L(LoopInv):
         __doc__ = f"""for bond in self.bonds: a1, a2 = bond; if self.get_bond_attribute(a1, a2, "reaction") == Change.{label}: acc.add(bond)"""
@@ -262,6 +364,9 @@ def _role_loop(label):
 
 
 LOOPS = {
+    ("graphs/scrg.py", "StereoCondensedReactionGraph.subgraph", 1): SCRG_subgraph_1,
+    ("graphs/smg.py", "StereoMolGraph.subgraph", 0): SMG_subgraph_0,
+    ("graphs/smg.py", "StereoMolGraph.subgraph", 1): SMG_subgraph_1,
     ("graphs/scrg.py", "StereoCondensedReactionGraph.enantiomer", 0): SCRG_enantiomer_0,
     ("graphs/scrg.py", "StereoCondensedReactionGraph.enantiomer", 1): SCRG_enantiomer_1,
     ("graphs/smg.py", "StereoMolGraph.enantiomer", 0): SMG_enantiomer_0,
